@@ -15,11 +15,12 @@ pub enum Address {
 
 impl Address {
     pub(crate) async fn resolve(&self) -> std::io::Result<std::net::SocketAddr> {
-        // Literal socket addresses need no resolver thread; a verification harness that owns the
-        // schedule can ask for them to be resolved inline.
+        // A verification harness that owns the schedule can ask for addresses to be resolved
+        // inline (no resolver thread); it only ever uses literal addresses and `localhost`, in
+        // any of the three representations.
         #[cfg(bmwill_anemo_verif)]
-        if let (Address::SocketAddr(addr), true) = (self, crate::verif::inline_resolve()) {
-            return Ok(*addr);
+        if crate::verif::inline_resolve() {
+            return self.resolve_blocking();
         }
         let address = self.to_owned();
 
